@@ -30,9 +30,9 @@ man = {
     "setup_cmd": "./check --setup",
     "hooks": {
         "guard": "LJT_VERIF",
-        "enable": "no hooks are needed: checks link the static libraries built from /repo's working tree and reach internals through the repo's own private headers",
+        "enable": "one hook: jpeg_gen_optimal_table() (src/jchuff.c) calls ljt_verif_codesize_hook(codesize, n) under #ifdef LJT_VERIF; the library itself is never built with the guard - the C19 harness compiles a private, renamed copy of jchuff.c from the working tree with -DLJT_VERIF (harness/ops_c19.c); everything else links the static libraries built from /repo's working tree and reaches internals through the repo's own private headers",
         "baseline_off_cmd": "cmake -G Ninja -S /repo -B /repo/_build -DCMAKE_BUILD_TYPE=Release && cmake --build /repo/_build && ctest --test-dir /repo/_build -j8 --timeout 900",
-        "source_commits": [],
+        "source_commits": ["0d680ea"],
         "add_only": True,
     },
     "engines": [{
